@@ -1,4 +1,5 @@
 """C16 — REFUSED replies are rate-bounded per source, yet quiet clients still get one (structural clauses)."""
+import re
 from ..util import *
 from ..prov import strip, norm, show, subterms
 from ..cfg import cfg_of
@@ -377,6 +378,31 @@ def run(ctx):
                         okk = False
             if first is not None and not any(cl.reachable_from(tgt, blocked=dblocks) & rets for _, tgt in first[2]):
                 good_true_edges += te
+        # the bucket that is charged is the bucket whose check came out true: same index
+        def bucket_index(bb, tm):
+            pl = borrowed_place(Tl, tm["args"][0], bb, len(lb.blocks[bb]["stmts"])) if tm["args"] else None
+            return pl
+        def lock_index_term(bb, tm):
+            # receiver: the guard returned by read()/write() awaited on self.0[idx]; find the index local in the receiver's term
+            a0 = norm(Tl.call_args(bb)[0])
+            idxs = [y for y in subterms(a0) if y[0] == "index"]
+            out = []
+            for y in idxs:
+                m_ = re.match(r"\[_(\d+)\]$", str(y[2])) if len(y) > 2 else None
+                if m_:
+                    L = int(m_.group(1))
+                    defs = [norm(Tl.rvalue(st["rv"], b2, i2)) for b2, i2, st in lb.stmts() if tuple(st["p"]) == (L,) and st.get("rv")]
+                    out.append(tuple(sorted(show(d) for d in defs)))
+            return tuple(out)
+        for dbb, dtm in depl:
+            doms = [(cb, ctm) for cb, ctm in checks if cl.dominates(cb, dbb)]
+            if not doms:
+                continue
+            cb, ctm = max(doms, key=lambda c: sum(1 for o in doms if cl.dominates(o[0], c[0])))
+            ci, di = lock_index_term(cb, ctm), lock_index_term(dbb, dtm)
+            if ci and di:
+                ctx.check(ci == di, "R4", "the-bucket-charged-is-the-bucket-checked", ctx.where(lb, dtm["sp"]),
+                          "deplete() is called on bucket %s after check() on bucket %s" % (di[0][0][:60] if di[0] else di, ci[0][0][:60] if ci[0] else ci))
         # a literal `true` is returned only where a bucket has been charged
         okk = okk and all(any(cl.dominates(d, t) for d, _ in depl) or edge_dominated(cl, good_true_edges, t) for t in tr)
         okk = okk and (bool(tr) or n_true >= 1) and n_true >= len(checks)
@@ -398,6 +424,15 @@ def run(ctx):
                 for y in subterms(a):
                     if y[0] == "field" and y[2] in ("local_ip", "remote_addr"):
                         srcs.add(y[2])
+                # an address goes into the HMAC whole: `octets()` of the address itself, not a part of it (the first 8 octets of an IPv6
+                # address are its /64 — a cookie then exempts every neighbour)
+                x = a
+                while x[0] in ("ref", "deref"):
+                    x = norm(x[1])
+                if any(y[0] == "call" and str(y[1]).endswith("::octets") for y in subterms(a)):
+                    whole = x[0] == "call" and str(x[1]).endswith("::octets")
+                    ctx.check(whole, "R3", "hmac-address-input-is-all-its-octets", ctx.where(b, tm["sp"]),
+                              "an address is fed to the HMAC through %s: every octet of it must go in" % show(x)[:80])
         ctx.check(srcs >= {"client-cookie", "local_ip", "remote_addr"}, "R3", "hmac-inputs=client-cookie+local-ip+remote-ip", ctx.where(b),
                   "the server cookie must bind the client cookie, the server address and the client address (inputs: %s)" % sorted(srcs))
         keyed = any((callee_name(tm) or "").endswith("new_from_slice") and norm(Tb.call_args(bb)[0])[0] == "param" for bb, tm in b.calls())
